@@ -339,3 +339,41 @@ def r15_6(ctx):
         ctx.need(len(alts) == 1, f"alternative {rname}: {skel} not found")
         sh = gm.shape(alts[0], cbs)
         ctx.check(f"{rname}: {skel} reaches a rejecting callback", sh[0] == "call", "('call', <callback>)", str(sh), gm.where(rname))
+
+
+@rule("R15.8", "C15", "a macro without a value (return type void) is invoked for what it does: its invocation must become an effect of the behaviour or be rejected - a value-only node disappears in statement position", min_instances=2)
+def r15_8(ctx):
+    idx = get_index(ctx.env)
+    effectful = set(idx.subclasses("Effect")) | set(idx.subclasses("Hybrid"))
+    for ret, groups in (("void", ("VOID",)), ("an integer", ("PURE",))):
+        r = Runner(idx)
+
+        def over():
+            macro = AObj("Macro", {"name": "M", "qemu_name": "M", "return_type": mk_vt("tret", False, 32, groups), "param_types": [mk_vt("tp", False, 32)], "rzil_macro": "M"}, label="macro")
+            return {"macros": {"M": macro}}
+
+        fi, outs = r.run("macro_expr", lambda: ["M", r.pure("items[1]", vt=mk_vt("t1", False, 32))], self_over=over)
+        ctx.need(outs, "macro_expr: no path")
+        obs = []
+        ok = True
+        for o in outs:
+            v = o.value
+            if o.kind == "raise":
+                obs.append("raises")
+                continue
+            cls = v.cls if isinstance(v, AObj) else type(v).__name__
+            obs.append(cls)
+            if ret == "void":
+                ok = ok and cls in effectful
+            else:
+                ok = ok and cls == "MacroInvocation"
+        ctx.check(f"macro_expr for a macro returning {ret}", ok, "an effect / hybrid node, or an exception" if ret == "void" else "MacroInvocation (a value)", " | ".join(sorted(set(obs))),
+                  fn_where(idx, fi))
+    # resource side: which bundled macros are void, and is any of them used as a statement of a bundled behaviour
+    import json
+
+    mp = ctx.env.repo / "Resources" / "Hexagon" / "qemu_rzil_macros.json"
+    ctx.need(mp.is_file(), "anchor missing: Resources/Hexagon/qemu_rzil_macros.json")
+    macros = json.loads(mp.read_text()).get("macros", {})
+    voids = sorted(k for k, v in macros.items() if str(v.get("return_type")) == "void")
+    ctx.check("bundled macro table read", len(macros) >= 20, ">= 20 macros", f"{len(macros)} macros, void: {voids}", "Resources/Hexagon/qemu_rzil_macros.json", nontrivial=False)
